@@ -172,6 +172,13 @@ pub fn check_source(lang_name: &str, name: &str, src: &str, rng: &mut Rng, rep: 
           Some(p) => recs[p].kids.clone(),
           None => vec![i],
         };
+        // the backward cursor walk of tree-sitter is known to misbehave next to ERROR children:
+        // keep those cases under their own attribute so that they cannot mask plain parents
+        let pattr = if pattr == "parent=plain" && sibs.iter().any(|s| recs[*s].node.is_error() || is_missing(&recs[*s].node)) {
+          "error-sibling".to_string()
+        } else {
+          pattr.clone()
+        };
         let all_nonzero = sibs.iter().all(|s| !recs[*s].node.range().is_empty());
         if all_nonzero {
           let pos = sibs.iter().position(|s| *s == i).unwrap();
